@@ -93,6 +93,7 @@ type Ctx struct {
 	progress     int64
 	always       bool
 	orders       []int // additional map-iteration orders every case is run under (vmap seam)
+	ordersOff    bool  // the current group opted out of the order sweep (SetOrderSweep)
 	obs          []string
 	orderObsFail int
 	replayDone   atomic.Bool
@@ -144,6 +145,10 @@ func orderNames(l []int) string {
 	}
 	return strings.Join(n, ", ")
 }
+
+// SetOrderSweep switches the map-order sweep off or on for the cases that follow (a group whose cost does not
+// allow it in the quick tier says so in its bound).
+func (c *Ctx) SetOrderSweep(on bool) { c.ordersOff = !on }
 
 func (c *Ctx) SetReplay(group string, index int64) {
 	c.replay, c.replayGroup, c.replayIndex = true, group, index
@@ -284,7 +289,7 @@ func (c *Ctx) Case(descFn func() any, fn Check) {
 	v := c.runOnce(fn, false)
 	obs0 := strings.Join(c.obs, "\x1e")
 	for _, m := range c.orders {
-		if v != nil {
+		if v != nil || c.ordersOff {
 			break
 		}
 		vmap.Mode = m
